@@ -291,6 +291,9 @@ class DIP:
         # Parse nodes
         while len(queue.nodes):
             node = queue.nodes.pop()
+            # A clause ends at a line indented no deeper than the clause keyword
+            if node.keyword!='empty':
+                target.branching.close_by_indent(node)
             # Perform specific node parsing only outside of case or inside of valid case
             if not target.branching.false_case() or node.keyword=='case':
                 node.inject_value(target)
